@@ -692,8 +692,8 @@ def run(ctx, P):
         r = random.Random(ctx.seed * 1000003 + hash(name) % 1000)
         r = random.Random("%d/%s" % (ctx.seed, name))
         cases = build(ctx, r)
-        for cfg in P.get("configs", ["pinned"]):
-            out = corr.compare_stream(ctx, name, cases, cfg, oracle, known)
+        for cfg, variant in [(c, v) for c in P.get("configs", ["pinned"]) for v in P.get("model_variants", ["spec"])]:
+            out = corr.compare_stream(ctx, name, cases, cfg, oracle, known, variant=variant)
             res["violations"] += out["violations"]
             for k in out["known"]:
                 if k not in res["known"]:
